@@ -26,12 +26,12 @@ import (
 
 func c3NewCase(tag string) *c3Case {
 	return &c3Case{nparts: numDownloadParts, minSize: minDownloadPartSize, maxSize: maxDownloadPartSize,
-		retries: maxRetries, variant: c3Variant, realm: []byte(c3Realm), tag: tag, reg: c3Manifest{config: c3Layer{"e", 0}}}
+		retries: maxRetries, variant: c3Variant, realm: []byte(c3Realm), tag: tag, reg: c3Manifest{config: c3Layer{"e", 0, 0}}}
 }
 
 func (c *c3Case) addLayer(content []byte, asConfig bool) string {
 	d := c3Sha(content)
-	l := c3Layer{d, int64(len(content))}
+	l := c3Layer{d, int64(len(content)), 0}
 	if asConfig {
 		c.reg.config = l
 	} else {
@@ -416,14 +416,14 @@ func c3Directed(emit func(*c3Case)) {
 	{
 		c := c3NewCase("dir-emptydigest")
 		c.addLayer(A, false)
-		c.reg.layers = append(c.reg.layers, c3Layer{"e", 0})
+		c.reg.layers = append(c.reg.layers, c3Layer{"e", 0, 0})
 		c.attempts = []c3Attempt{{}}
 		emit(c)
 	}
 	{
 		c := c3NewCase("dir-baddigest")
 		c.addLayer(A, false)
-		c.reg.layers = append(c.reg.layers, c3Layer{"b", 3})
+		c.reg.layers = append(c.reg.layers, c3Layer{"b", 3, 0})
 		c.attempts = []c3Attempt{{}}
 		emit(c)
 	}
@@ -471,9 +471,9 @@ func c3Directed(emit func(*c3Case)) {
 			old := []byte("old-layer")
 			dO := c3Sha(old)
 			c.blobs = append(c.blobs, c3Blob{dO, old})
-			c.manifests = append(c.manifests, c3Man{name: 0, m: c3Manifest{layers: []c3Layer{{dO, int64(len(old))}}, config: c3Layer{"e", 0}}})
+			c.manifests = append(c.manifests, c3Man{name: 0, m: c3Manifest{layers: []c3Layer{{dO, int64(len(old)), 0}}, config: c3Layer{"e", 0, 0}}})
 			if shared == 1 {
-				c.manifests = append(c.manifests, c3Man{name: 1, m: c3Manifest{layers: []c3Layer{{dO, int64(len(old))}}, config: c3Layer{"e", 0}}})
+				c.manifests = append(c.manifests, c3Man{name: 1, m: c3Manifest{layers: []c3Layer{{dO, int64(len(old)), 0}}, config: c3Layer{"e", 0, 0}}})
 			}
 			c.attempts = []c3Attempt{{}}
 			emit(c)
@@ -577,11 +577,11 @@ func c3Random(r *zzverif.Rng) *c3Case {
 	}
 	if r.Chance(1, 30) {
 		c.tag = "rand-emptydigest"
-		c.reg.layers = append(c.reg.layers, c3Layer{"e", 0})
+		c.reg.layers = append(c.reg.layers, c3Layer{"e", 0, 0})
 	}
 	if r.Chance(1, 30) {
 		c.tag = "rand-baddigest"
-		c.reg.layers = append(c.reg.layers, c3Layer{"b", 1})
+		c.reg.layers = append(c.reg.layers, c3Layer{"b", 1, 0})
 	}
 	if nl > 0 && r.Chance(1, 20) {
 		c.tag = "rand-sizelie"
@@ -652,7 +652,7 @@ func c3Random(r *zzverif.Rng) *c3Case {
 			}
 		}
 		c.blobs = append(c.blobs, c3Blob{dO, old})
-		om := c3Manifest{layers: []c3Layer{{dO, int64(len(old))}}, config: c3Layer{"e", 0}}
+		om := c3Manifest{layers: []c3Layer{{dO, int64(len(old)), 0}}, config: c3Layer{"e", 0, 0}}
 		if nl > 0 && r.Bool() { // the old manifest shares a layer with the new one (blob present and valid)
 			l := c.reg.layers[0]
 			if len(l.ref) == 64 {
@@ -671,10 +671,28 @@ func c3Random(r *zzverif.Rng) *c3Case {
 		}
 		c.manifests = append(c.manifests, c3Man{name: 0, m: om})
 		if r.Chance(1, 3) {
-			c.manifests = append(c.manifests, c3Man{name: 1, m: c3Manifest{layers: []c3Layer{{dO, int64(len(old))}}, config: c3Layer{"e", 0}}})
+			c.manifests = append(c.manifests, c3Man{name: 1, m: c3Manifest{layers: []c3Layer{{dO, int64(len(old)), 0}}, config: c3Layer{"e", 0, 0}}})
 		}
 	case x < 4:
 		c.manifests = append(c.manifests, c3Man{name: 0, corrupt: true})
+	case x < 6:
+		// the name already resolves to an earlier version of the tag that is RELATED to the served one (same layers and
+		// another config / media type, a layer more or less, another order, the very same manifest ...)
+		clean := true
+		for _, l := range c.reg.all() {
+			clean = clean && len(l.ref) == 64
+		}
+		if clean {
+			w := &c3RepWorld{c: c}
+			kind := zzverif.Pick(r, c3RepKinds)
+			w.install(0, c3Republished(w, r, kind, c.reg))
+			if c.tag == "rand" {
+				c.tag = "rand-related-old"
+			}
+		}
+	}
+	if nl > 0 && r.Chance(1, 12) { // descriptors with other media types
+		c.reg.layers[r.Intn(nl)].mt = r.Range(1, len(c3MediaTypes)-1)
 	}
 	// scripted attempts
 	authHistory := r.Chance(1, 5)
@@ -834,9 +852,11 @@ func c3RegHonest(c *c3Case) bool {
 		}
 		have[b.dig] = true
 	}
-	for _, l := range c.reg.all() {
-		if len(l.ref) != 64 || !have[l.ref] {
-			return false
+	for _, m := range c.allRegs() {
+		for _, l := range m.all() {
+			if len(l.ref) != 64 || !have[l.ref] {
+				return false
+			}
 		}
 	}
 	return true
@@ -873,12 +893,16 @@ func c3RunCase(t *testing.T, out *zzverif.Out, c *c3Case) {
 	if initialGood {
 		out.Count("initial_store_good")
 	}
-	dupDigest := map[string]int{}
-	for _, l := range c.reg.all() {
-		dupDigest[l.ref]++
-	}
 	for ai := range c.attempts {
 		a := &c.attempts[ai]
+		reg := c.regOf(a) // what the registry serves in this attempt (the tag may have been re-published)
+		dupDigest := map[string]int{}
+		for _, l := range reg.all() {
+			dupDigest[l.ref]++
+		}
+		if a.reg != nil {
+			out.Count("attempts_republished")
+		}
 		var res c3Result
 		if c3NeedsChild(a) {
 			res = c3RunChild(t, line, models, home, ai)
@@ -911,7 +935,7 @@ func c3RunCase(t *testing.T, out *zzverif.Out, c *c3Case) {
 			if !sawSuccess && !c3NeedsChild(a) {
 				out.L2("success-without-status", line, where)
 			}
-			for _, l := range c.reg.all() {
+			for _, l := range reg.all() {
 				if len(l.ref) != 64 {
 					out.L2("success-unaddressable-layer", line, "ref="+l.ref+" "+where)
 					continue
@@ -944,8 +968,14 @@ func c3RunCase(t *testing.T, out *zzverif.Out, c *c3Case) {
 			m := after.mans[c.name]
 			if m == nil {
 				out.L2("success-manifest-differs", line, "stored manifest missing or unreadable "+where)
-			} else if got, _ := json.Marshal(m); !bytes.Equal(got, c3StoredManifestJSON(c)) {
-				out.L2("success-manifest-differs", line, "stored="+string(got)+" "+where)
+			} else if got, _ := json.Marshal(m); !bytes.Equal(got, c3StoredManifestJSON(c, a)) {
+				detail := "stored=" + string(got)
+				if om := before.mans[c.name]; om != nil {
+					if ob, _ := json.Marshal(om); bytes.Equal(ob, got) {
+						detail = "the manifest stored before this attempt is still there, the registry served another one: " + detail
+					}
+				}
+				out.L2("success-manifest-differs", line, detail+" "+where)
 			}
 		} else {
 			// ---- L2 (mechanism): a failed attempt leaves no unverified blob under its final name
@@ -1210,6 +1240,8 @@ func TestVerifC03(t *testing.T) {
 	for i := 0; i < zzverif.EnvInt("VERIF_N", 300); i++ {
 		c3RunCase(t, out, c3Random(rr.Fork()))
 	}
+	// 3a. re-pulls of a name whose tag was re-published (related old and new manifests)
+	c3Republish(root.Fork(), zzverif.EnvInt("VERIF_NREP", 150), func(c *c3Case) { c3RunCase(t, out, c) })
 	// 3b. two overlapping pulls sharing a layer
 	c3TwoCases(root.Fork(), zzverif.EnvInt("VERIF_NTWO", 40), func(w *c3Two) { c3TwoCase(t, out, w) })
 	// 4. resume from real multi-part state (>= 11 parts, > 1 GB virtual blob)
@@ -1403,8 +1435,10 @@ func c3ProbeVariant(t *testing.T) {
 // c3HonestNeeded: one honest attempt per layer that may need cleaning, plus one.
 func c3HonestNeeded(c *c3Case) int {
 	set := map[string]bool{}
-	for _, l := range c.reg.all() {
-		set[l.ref] = true
+	for _, m := range c.allRegs() {
+		for _, l := range m.all() {
+			set[l.ref] = true
+		}
 	}
 	return max(2, len(set)+1)
 }
@@ -1426,7 +1460,7 @@ func c3HonestTail(c *c3Case, a []c3Attempt) []c3Attempt {
 	return a
 }
 
-func c3AttemptHonest(a *c3Attempt) bool {
+func c3AttemptHonest(a *c3Attempt) bool { // (a re-published manifest is honest: c3RegHonest looks at every version)
 	if len(a.ls)+len(a.tok) != 0 || a.cancel != "" {
 		return false
 	}
